@@ -375,12 +375,12 @@ def pipeline_case(draw):
         case["in_keys"] = {str(draw(st.integers(0, 2))): draw(key_st)}
     if n >= 2 and draw(st.integers(0, 3)) == 0:
         case["dup"] = [[draw(st.integers(0, n - 1)), draw(st.integers(0, n - 1))] for _ in range(draw(st.integers(1, 3)))]
-    if draw(st.integers(0, 2)) == 0:
+    if draw(st.sampled_from([False, False, True])):
         # near-duplicates of the output tag (exact matches, if any, keep their positions): with and without an exact match in the list
         cnt = draw(st.sampled_from([1, 1, 2, 3, n]))
         pos = draw(st.lists(st.integers(0, n - 1), min_size=1, max_size=min(cnt, 24)))
         case["near"] = {str(i): draw(st.sampled_from(NEAR_KINDS)) for i in pos}
-        if draw(st.integers(0, 2)) == 0:
+        if draw(st.sampled_from([False, False, False, True])):
             case["match"] = []
     nmut = draw(st.sampled_from([0, 1, 1, 2])) if k <= 64 else draw(st.sampled_from([0, 0, 1]))
     case["muts"] = [{"kind": draw(st.sampled_from(["tag_replace", "tag_selected_replace", "out_replace", "swap", "count_minus", "count_plus", "bitflip", "bitflip", "sel_to_output"])),
